@@ -150,9 +150,17 @@ def run(ctx):
         report.nontriv("variant sets")
         report.sample({"into_records builds": sorted(built), "from_records consumes": sorted(consumed)})
     # each arm stores into the right collection: the insert/extend call in the arm takes &mut <local named ...>
-    names = fr.local_names()
-    want = {"A": "ip_addresses", "AAAA": "ip_addresses", "SRV": "ports", "TXT": "attributes"}
+    # collections by role: the local that ends up in the field of that name of the InstanceInformation built at the end
     defs = mu.defs_of(fr)
+    names = {}
+    for _bi, _si, s0 in mu.aggregates(fr, "InstanceInformation"):
+        for fname, op in zip(s0["rv"]["fields"], s0["rv"]["ops"]):
+            l0 = mu.origin_local(fr, defs, mu.op_local(op))
+            if l0 is not None:
+                names[l0] = fname
+    if not names:
+        names = fr.local_names()
+    want = {"A": "ip_addresses", "AAAA": "ip_addresses", "SRV": "ports", "TXT": "attributes"}
     for vn, tg in sorted(arms.items()):
         report.count()
         # blocks of this arm only: everything reachable from the arm without re-entering the match, minus what the
